@@ -46,8 +46,6 @@ def document(layout, K=1, fix=None, crit=False):
         doc, exp, has = build(a)
         if region_active('c15_key_with_keyword_prefix') and has and (a['k1'] >= 1):
             return ''        # keys note2 / Pk (a keyword is a prefix of the key): open finding
-        if region_active('c15_property_after_newline_in_settings') and layout == 'multi' and ((a['cp'] >= 1 and a['cpos'] >= 1) or a['cp'] == 2):
-            return ''        # multi-line settings list with a property that is not its first entry: open finding
         # option on
         try:
             db = docs.parse(doc, allow_properties=True)
